@@ -8,10 +8,13 @@ mkdir -p .build evidence replays
 (cd go/extract && GOCACHE="$PWD/../../.build/gocache" go build -o ../../.build/extract . && ../../.build/extract /repo "$PWD/../../lean/CvssVerif/Generated/Names.lean")
 (cd go/effects && GOCACHE="$PWD/../../.build/gocache" go build -o ../../.build/effects . && ../../.build/effects /repo "$PWD/../../lean/CvssVerif/Generated/Effects.lean")
 (cd go/formulas && GOCACHE="$PWD/../../.build/gocache" go build -o ../../.build/formulas . && { ../../.build/formulas /repo "$PWD/../../lean/CvssVerif/Generated/Formulas.lean" "$PWD/reference.lean" || cp reference.lean ../../lean/CvssVerif/Generated/Formulas.lean; })
+(cd go/tables && GOCACHE="$PWD/../../.build/gocache" go build -o ../../.build/tables . && { ../../.build/tables /repo "$PWD/../../lean/CvssVerif/Generated/Tables.lean" "$PWD/reference.lean" || cp reference.lean ../../lean/CvssVerif/Generated/Tables.lean; })
 (cd lean && LEAN_NUM_THREADS=16 lake build CvssVerif cvssmodel)
 # the tie by translation of the score functions (not part of the library root: a source that is no longer provably the model
 # must not stop the other modules from building; check.py reports it per property)
 (cd lean && LEAN_NUM_THREADS=16 lake build CvssVerif.Props.Src) || echo "setup: Props/Src.lean does not check against /repo's current formulas (reported by the checks of C01-C06, C13)"
+# the tie by translation of the per-metric types (same reason for keeping it out of the library root; reported by C20)
+(cd lean && LEAN_NUM_THREADS=16 lake build CvssVerif.Props.SrcTab) || echo "setup: Props/SrcTab.lean does not check against /repo's current metric types (reported by the check of C20)"
 cp /repo/go.sum go/harness/go.sum
 (cd go/harness && { GOCACHE="$PWD/../../.build/gocache" CGO_ENABLED=0 go build -tags verif -o ../../.build/harness . || GOCACHE="$PWD/../../.build/gocache" CGO_ENABLED=0 go build -o ../../.build/harness . ; })
 echo "setup ok"
